@@ -1,0 +1,185 @@
+//go:build verif
+// +build verif
+
+package isaacstates
+
+import (
+	"context"
+	"time"
+
+	"github.com/pkg/errors"
+	"github.com/spikeekips/mitum/base"
+	"github.com/spikeekips/mitum/network/quicstream"
+)
+
+// VerifStubControl scripts and observes the stub handlers used to drive the
+// States machine in verification harnesses. Every method may block: the
+// callbacks double as scheduling points.
+type VerifStubControl interface {
+	// OnState is called on every handler.state() call.
+	OnState(state StateType)
+	// OnExit returns 0 (ok), 1 (error) or 2 (ErrIgnoreSwitchingState).
+	OnExit(state, next StateType) int
+	// OnNew returns false if creating the handler should fail.
+	OnNew(state StateType) bool
+	// OnEnter returns 0 (ok), 1 (error) or 2 (another switch context
+	// rfrom->rnext). allowed is States.AllowedConsensus() at that moment.
+	OnEnter(state, from StateType, allowed bool) (outcome int, rfrom, rnext StateType)
+	OnWhenSetAllowConsensus(state StateType, allow bool)
+}
+
+type verifStubHandler struct {
+	ctl VerifStubControl
+	sts *States
+	stt StateType
+}
+
+// VerifNewStubHandler returns a newHandler for States.SetHandler.
+func VerifNewStubHandler(state StateType, ctl VerifStubControl) newHandler {
+	return &verifStubHandler{stt: state, ctl: ctl}
+}
+
+func (h *verifStubHandler) new() (handler, error) {
+	if !h.ctl.OnNew(h.stt) {
+		return nil, errors.Errorf("verif: new handler")
+	}
+
+	return &verifStubHandler{stt: h.stt, ctl: h.ctl, sts: h.sts}, nil
+}
+
+func (h *verifStubHandler) setStates(sts *States) { h.sts = sts }
+
+func (h *verifStubHandler) state() StateType {
+	h.ctl.OnState(h.stt)
+
+	return h.stt
+}
+
+func (h *verifStubHandler) enter(from StateType, _ switchContext) (func(), error) {
+	allowed := false
+	if h.sts != nil {
+		allowed = h.sts.AllowedConsensus()
+	}
+
+	switch o, rfrom, rnext := h.ctl.OnEnter(h.stt, from, allowed); o {
+	case 0:
+		return func() {}, nil
+	case 2:
+		return nil, newBaseSwitchContext(rfrom, rnext)
+	default:
+		return nil, errors.Errorf("verif: enter")
+	}
+}
+
+func (h *verifStubHandler) exit(sctx switchContext) (func(), error) {
+	switch h.ctl.OnExit(h.stt, sctx.next()) {
+	case 0:
+		return func() {}, nil
+	case 2:
+		return nil, ErrIgnoreSwitchingState.Errorf("verif: exit")
+	default:
+		return nil, errors.Errorf("verif: exit")
+	}
+}
+
+func (*verifStubHandler) newVoteproof(base.Voteproof) error { return nil }
+
+func (h *verifStubHandler) allowedConsensus() bool {
+	if h.sts == nil {
+		return false
+	}
+
+	return h.sts.AllowedConsensus()
+}
+
+func (h *verifStubHandler) whenSetAllowConsensus(allow bool) {
+	h.ctl.OnWhenSetAllowConsensus(h.stt, allow)
+}
+
+// VerifSwitchContext makes a switch context from -> next; with withVoteproof it
+// is a voteproofSwitchContext (carrying a nil voteproof).
+func VerifSwitchContext(from, next StateType, withVoteproof bool) switchContext {
+	if withVoteproof {
+		return verifVoteproofSwitchContext{baseSwitchContext: newBaseSwitchContext(from, next)}
+	}
+
+	return newBaseSwitchContext(from, next)
+}
+
+type verifVoteproofSwitchContext struct { //nolint:errname //...
+	baseSwitchContext
+}
+
+func (verifVoteproofSwitchContext) voteproof() base.Voteproof { return nil }
+
+// VerifSwitchContextOf returns (from, next) of a switch context found in err.
+func VerifSwitchContextOf(err error) (from, next StateType, ok bool) {
+	var sctx switchContext
+	if !errors.As(err, &sctx) {
+		return StateEmpty, StateEmpty, false
+	}
+
+	return sctx.from(), sctx.next(), true
+}
+
+// VerifInit sets the stopped handler as current, like the first part of
+// States.start.
+func (st *States) VerifInit() error {
+	h, err := st.newHandlers[StateStopped].new()
+	if err != nil {
+		return err
+	}
+
+	if _, err := h.enter(StateEmpty, nil); err != nil {
+		return err
+	}
+
+	st.stateLock.Lock()
+	st.cs = h
+	st.stateLock.Unlock()
+
+	return nil
+}
+
+func (st *States) VerifEnsureSwitchState(sctx switchContext) error { return st.ensureSwitchState(sctx) }
+
+func (st *States) VerifSwitchState(sctx switchContext) error { return st.switchState(sctx) }
+
+// VerifTakeAsked receives what AskMoveState queued for the states loop.
+func (st *States) VerifTakeAsked(timeout time.Duration) (switchContext, bool) {
+	select {
+	case sctx := <-st.statech:
+		return sctx, true
+	case <-time.After(timeout):
+		return nil, false
+	}
+}
+
+// VerifSetHandoverYBroker installs a bare handover y broker: 0 none, 1 not yet
+// asked, 2 asked.
+func (st *States) VerifSetHandoverYBroker(mode int) {
+	if mode == 0 {
+		st.handoverYBroker.EmptyValue()
+
+		return
+	}
+
+	broker := NewHandoverYBroker(context.Background(), NewHandoverYBrokerArgs(st.networkID), quicstream.ConnInfo{})
+	if mode == 2 { //nolint:mnd //...
+		broker.id.SetValue("verif")
+	}
+
+	st.handoverYBroker.SetValue(broker)
+}
+
+// VerifHandoverYBrokerMode reports what checkHandoverStateSwitchContext will see.
+func (st *States) VerifHandoverYBrokerMode() int {
+	switch broker := st.HandoverYBroker(); {
+	case broker == nil:
+		return 0
+	case !broker.IsAsked():
+		return 1
+	default:
+		return 2 //nolint:mnd //...
+	}
+}
